@@ -62,6 +62,9 @@ def repro_snippet(rec):
     ])
 
 
+CHUNK = 4000      # records judged per stage in the thorough tier
+
+
 def slim(rec):
     """A recorded scenario without the bulky abstract type (for evidence samples)."""
     return {"defs": rec["defs"], "mode": rec["mode"], "start": rec.get("start"), "input_hex": bytes(rec.get("input", [])).hex(),
@@ -125,9 +128,9 @@ def adjudicate(rep, records, owned, *, trace_module="Trace_Codec", nontrivial=No
             rep.violation(f"clauses {failed} rejected (all: {v}) :: {r['defs'][:300]} mode={r['mode']} start={r.get('start')} "
                           f"compiled={r.get('req_compiled')} input={bytes(r.get('input', [])).hex()[:120]}",
                           {"kind": "trace", "clauses": failed, "all_clauses": v, "record": r, "python": repro_snippet(r)})
-    planned = sum(1 for r in ok if "plan" in r.get("obs", {}))
+    rep.extra["planned_structures"] = planned = rep.extra.get("planned_structures", 0) + sum(1 for r in ok if "plan" in r.get("obs", {}))
     drift = rep.exclusions.get("DRIFT:plan", 0)
-    if planned and drift > planned // 4:
+    if planned and drift > planned // 4 and not any("PlanSpec predicts" in x for x in rep.notes):
         rep.notes.append(f"the generated source of {drift} of {planned} compiled structures does not have the shape PlanSpec predicts: the "
                          "translation check (source text -> plan) is not binding for them (behaviour is still compared with Decode)")
 
@@ -222,10 +225,23 @@ class CodecCheck:
                                        inputs=("ramp", "ff", "x80", "zero", "rand") if thorough else ("ramp", "rand"))
         # E2 (b): random definitions far beyond the bounds
         n = self.thorough_n if thorough else self.quick_n
-        recs += codec.random_batch(n, rnd.randrange(1 << 30), self.cfg, compiled=self.compiled, both=self.both, first_id=len(recs))
-        if self.extra:
-            recs += self.extra(rep, rnd, len(recs))
+        if n <= CHUNK:
+            recs += codec.random_batch(n, rnd.randrange(1 << 30), self.cfg, compiled=self.compiled, both=self.both, first_id=len(recs))
+            if self.extra:
+                recs += self.extra(rep, rnd, len(recs))
+            adjudicate(rep, recs, self.owned, nontrivial=self.nontrivial)
+            return
+        # thorough: judged in stages, so that the harness never holds more than one stage's records (a whole thorough run held ~10 GB)
         adjudicate(rep, recs, self.owned, nontrivial=self.nontrivial)
+        base, recs = len(recs), None
+        left = n
+        while left > 0:
+            k = min(left, CHUNK)
+            chunk = codec.random_batch(k, rnd.randrange(1 << 30), self.cfg, compiled=self.compiled, both=self.both, first_id=base)
+            adjudicate(rep, chunk, self.owned, nontrivial=self.nontrivial)
+            base, left, chunk = base + k, left - k, None
+        if self.extra:
+            adjudicate(rep, self.extra(rep, rnd, base), self.owned, nontrivial=self.nontrivial)
 
     def replay(self, path):
         """Re-run a recorded violation on the current tree and judge it again."""
